@@ -637,6 +637,36 @@ func ruleAssignRHS(c *Ctx, r *Report, rule string) {
 			site(row.Prefix+"@"+row.Token, "content of parentheses", 1)
 		}
 	}
+	// and nowhere else: the operand of an operator is parsed above the assignment level, so that `a or b = 2` is
+	// not an assignment
+	seenOp := map[string]bool{}
+	for _, row := range m.rules {
+		for _, fk := range [][2]string{{row.Prefix, "prefix"}, {row.Infix, "infix"}} {
+			if fk[0] == "" || (fk[1] == "prefix" && (row.Token == "tIDENT" || row.Token == "tLPAREN")) {
+				continue
+			}
+			key := fk[0] + "@" + row.Token
+			if seenOp[key] {
+				continue
+			}
+			seenOp[key] = true
+			lv, ok := levels(key)
+			if !ok {
+				continue
+			}
+			bad := false
+			for _, v := range lv {
+				if v <= want {
+					bad = true
+				}
+			}
+			pos := ""
+			if e := m.Entries[key]; e != nil && e.Decl != nil {
+				pos = c.pos(e.Decl.Pos())
+			}
+			r.check(!bad, rule, "operand/"+key, "operands parsed above the assignment level", fmt.Sprintf("the %s rule of %s parses an operand at levels %v: at level %d an assignment would be accepted in the middle of an expression", fk[1], row.Token, lv, want), pos)
+		}
+	}
 	for _, fn := range []string{"varDecl", "printStmt", "exprStmt"} {
 		if m.Entries[fn] != nil {
 			site(fn, fn, 1)
